@@ -65,7 +65,7 @@ def get(name, seed=0):
     key = (name, seed)
     if key not in _MESH_CACHE:
         if name.startswith("device:"):
-            _MESH_CACHE[key] = make_device(name.split(":")[1], seed).mesh
+            _MESH_CACHE[key] = make_device(name.split(":", 1)[1], seed).mesh
         else:
             _MESH_CACHE[key] = make_mesh(name, seed)
     return copy.deepcopy(_MESH_CACHE[key])
@@ -136,6 +136,9 @@ def make_device(kind, seed=0):
     from tdgl.geometry import box
 
     key = (kind, seed)
+    shift = None
+    if kind.endswith(":shifted"):  # the same outline drawn far from the origin
+        kind, shift = kind.split(":")[0], np.array([12.0, -7.0])
     layer = tdgl.Layer(coherence_length=1.0, london_lambda=2.0, thickness=0.1, gamma=1.0)
     film = tdgl.Polygon("film", points=np.array([[0, 0], [2, 0], [2, 1], [0, 1]], float))
     if kind == "bar2":
@@ -178,6 +181,11 @@ def make_device(kind, seed=0):
         probes = None
     else:
         raise KeyError(kind)
-    dev = tdgl.Device("d", layer=layer, film=film, holes=locals().get("holes"), terminals=terms, probe_points=probes)
+    holes = locals().get("holes")
+    if shift is not None:
+        mv = lambda poly: tdgl.Polygon(poly.name, points=np.asarray(poly.points) + shift)
+        film, holes, terms = mv(film), [mv(h) for h in holes or []], [mv(t) for t in terms]
+        probes = None if probes is None else [tuple(np.asarray(q) + shift) for q in probes]
+    dev = tdgl.Device("d", layer=layer, film=film, holes=holes, terminals=terms, probe_points=probes)
     dev.make_mesh(max_edge_length=0, min_points=None)
     return dev
